@@ -133,6 +133,9 @@ pub fn cmd_emit(args: &[String]) {
         specs.push((shard * 100000 + i, s, c));
     }
     for (id, spec, cfg) in &specs {
+        if skip_case(*id) {
+            continue;
+        }
         writeln!(cases, "{} {} {}", id, cfg_sexp(cfg), spec_sexp(spec)).unwrap();
         let sp = ctx.spec_file(spec);
         let d = ctx.fresh_dir();
@@ -230,6 +233,9 @@ pub fn cmd_emit_crates(args: &[String]) {
         specs.push((shard * 100000 + i, s, c));
     }
     for (id, spec, cfg) in &specs {
+        if skip_case(*id) {
+            continue;
+        }
         let sp = ctx.spec_file(spec);
         let d = std::path::PathBuf::from(format!("{}/c{}", out, id));
         let _ = std::fs::remove_dir_all(&d);
